@@ -86,9 +86,12 @@ Theorem C09_a_bar_in_other_units_is_sliced_alike_and_carries_the_converted_loads
 Proof. exact bar_in_other_units. Qed.
 Print Assumptions C09_a_bar_in_other_units_is_sliced_alike_and_carries_the_converted_loads.
 
-(* the general form: any two descriptions of the bar whose numbers are related as above (up to ==), however written *)
-Theorem C09_related_bars_are_sliced_alike : forall (lam f m : Q), ~ (lam == 0)%Q -> (m == f * lam)%Q ->
-  forall w b b', bar_rel lam f m b b' -> Forall2 (node_rel lam f m) (preprocess_bar w b) (preprocess_bar w b').
+(* the general form: any two descriptions of one bar - other units (lam; intensities x f and x m = f lam), another
+   place (dx, dy), turned by the angle of cosine cr and sine sr - whose numbers are related up to ==, however they
+   are written; loads in the global axes and own weight need the same direction (cr = 1, sr = 0) *)
+Theorem C09_related_bars_are_sliced_alike : forall (lam cr sr dx dy f m : Q), ~ (lam == 0)%Q -> (m == f * lam)%Q -> (cr * cr + sr * sr == 1)%Q ->
+  forall w b b', (w = true -> (cr == 1 /\ sr == 0)%Q) -> bar_rel lam cr sr dx dy f m b b' ->
+  Forall2 (node_rel lam cr sr dx dy f m) (preprocess_bar w b) (preprocess_bar w b').
 Proof. exact preprocess_bar_units. Qed.
 Print Assumptions C09_related_bars_are_sliced_alike.
 
@@ -99,5 +102,5 @@ Definition c09_bar : bar Q := {| b_n1 := 0; b_n2 := 1; b_l1 := rigid; b_l2 := ri
   b_dl := [ {| dl_term := FY; dl_local := false; dl_t0 := 1 # 4; dl_v0 := - (2 # 1); dl_t1 := 3 # 4; dl_v1 := - (5 # 1) |} ] |}.
 Example C09_bar_example :
   length (preprocess_bar true c09_bar) = 14%nat /\ length (preprocess_bar true (units_bar (1 # 100) (1 # 1000) c09_bar)) = 14%nat /\
-  bar_rel (1 # 100) ((1 # 1000) / (1 # 100)) (1 # 1000) c09_bar (units_bar (1 # 100) (1 # 1000) c09_bar).
+  bar_rel (1 # 100) 1 0 0 0 ((1 # 1000) / (1 # 100)) (1 # 1000) c09_bar (units_bar (1 # 100) (1 # 1000) c09_bar).
 Proof. split; [vm_compute; reflexivity|]. split; [vm_compute; reflexivity|]. apply units_bar_rel. discriminate. Qed.
